@@ -20,12 +20,14 @@ SKELETONS = [
     ("youtube", "https://www.youtube.com/redirect?q=", "&v=1"),
     ("q-google", "https://www.google.com/url?q=", ""),
     ("lookalike-key", "http://x.fr/?curl=", "&u"),
+    ("growth", "http://x.fr/r?u=//%23", ""),
+    ("growth-query", "http://x.fr/r?u=/", "%3Fu%3D/"),
 ]
 BOUNDS = {
-    "quick": "16 redirect skeletons (redirect keys in query, before the path, in userinfo / host / path / fragment position, nested 2 levels with matching escaping, self-referential, AMP and Marfeel caches, youtube, google, look-alike key) x every hole string of length 0..2 (0..3 for the free, query, before-path, nested, self, amp-cache and google skeletons) over all code points; recursive and single-step",
+    "quick": "18 redirect skeletons (redirect keys in query, before the path, in userinfo / host / path / fragment position, nested 2 levels with matching escaping, self-referential, AMP and Marfeel caches, youtube, google, look-alike key) x every hole string of length 0..2 (0..3 for the free, query, before-path, nested, self, amp-cache and google skeletons) over all code points; recursive and single-step",
     "thorough": "holes of length 0..3 (0..4 for the skeletons listed above, free: 0..5)",
 }
-STUBS = ["stdlib urllib.parse.unquote and urljoin interpreted from source", "RecursionError modelled at interpreted call depth 120 (about 20 nested inference steps); a counterexample is only reported when the native call raises RecursionError too"]
+STUBS = ["stdlib urllib.parse.unquote and urljoin interpreted from source", "RecursionError modelled at interpreted call depth 48; a counterexample is only reported when the native call raises RecursionError too"]
 TRUSTED = ["spec/c15.py (own copy of the documented redirect-key list and cache patterns)", "pysx engine", "z3"]
 ASSUMPTIONS = ["wall-clock per call is not a solver question: termination is decided as 'no RecursionError' on every path within the bound",
                "chains of more than 12 inference steps are outside recursive_equals_iterated_step"]
@@ -40,7 +42,7 @@ def red(st, skel, n):
     run_prop(st, "step_returns_input_or_embedded_target", S.step_returns_input_or_embedded_target, u)
 
 
-N3 = ("free", "query-u", "query-url", "before-path", "nested", "self", "amp-cache", "q-google")
+N3 = ("growth", "free", "query-u", "query-url", "before-path", "nested", "self", "amp-cache", "q-google")
 
 
 def items(tier):
